@@ -6,94 +6,6 @@ import ESV.Comp.CgFor
 namespace ESV.Comp
 open ESV ESV.Beh
 
-/-- the statements of F0 but `return`: plain operations (not named `Return`: a macro expansion turns every `Return` op into a
-jump to its end label, the language semantics only `return;`), operations under a context, `end` / `hold` -/
-def cgSimple : Stmt → Bool
-  | .op n _ => nameOK n && n != Gen.op_return
-  | .inl c _ n _ => isCtx c && nameOK n && n != Gen.op_return
-  | .with_ c _ inner => isCtx c && f0Inner inner
-  | .end_ => true
-  | .hold => true
-  | _ => false
-
-def isExit : Stmt → Bool
-  | .brk => true
-  | .cont => true
-  | .brkLoop => true
-  | .jump _ => true
-  | _ => false
-
-/-- a body that is a single `break` / `continue` / `break_loop` / `jump` -/
-def loneExit : Stmts → Bool
-  | .cons s .nil => isExit s
-  | _ => false
-
-/-- statements behind which control does not go on -/
-def endsStmt : Stmt → Bool
-  | .ret => true
-  | .end_ => true
-  | .hold => true
-  | .brk => true
-  | .cont => true
-  | .brkLoop => true
-  | .jump _ => true
-  | _ => false
-
-/-- the last statement of the block is one behind which control does not go on -/
-def endsFlowStmts : Stmts → Bool
-  | .nil => false
-  | .cons s .nil => endsStmt s
-  | .cons _ r => endsFlowStmts r
-
-/-- `CaseValue` under `SwitchScenario` is collected as `CaseScenario` -/
-def caseName (sw name : String) : String :=
-  if sw == Gen.op_switch_scenario && name == Gen.op_case_value then Gen.op_case_scenario else name
-
-def Cases.isNil : Cases → Bool
-  | .nil => true
-  | _ => false
-
-mutual
-/-- the statements `codegen_correct` covers, by level: always F0 (`cgSimple`) and if / elseif / else with any headers, `not`,
-empty blocks (F1); from level 2 on `forever` / `while` / `for` with `continue` and `break_loop` (F2; the init and increment
-statements of `for` are F0 statements); from level 3 on `switch` with `case` / `default` / `break`, fall-through and
-cases sharing a block (F3; not: a header op that ends the routine; a case block that is a single `break` / `continue` /
-`break_loop` / `jump` — `_process_block` may fold it into the header jumps — only if nothing can fall into it: it is the first
-block of the switch, or the block before it ends in `return` / `end` / `hold` / `break` / `continue` / `break_loop` / `jump`;
-`nf` of `cgCases`); from level 4 on user labels,
-`jump @l` and `call @l` anywhere (F4); from level 5 on macro calls (F5) -/
-def cgStmt (lv : Nat) : Stmt → Bool
-  | .op n ps => cgSimple (.op n ps)
-  | .inl c cp n ps => cgSimple (.inl c cp n ps)
-  | .with_ c cp inner => cgSimple (.with_ c cp inner)
-  | .ret => true
-  | .end_ => true
-  | .hold => true
-  | .ite _ hdrs body elifs _ els => hdrs.all (fun h => isTest h.name) && cgStmts lv body && cgElifs lv elifs && cgStmts lv els
-  | .label _ => decide (4 ≤ lv)
-  | .jump _ => decide (4 ≤ lv)
-  | .call _ => decide (4 ≤ lv)
-  | .brk => decide (3 ≤ lv)
-  | .switch hdr cs => decide (3 ≤ lv) && nameOK hdr.name && !Beh.endsFlow hdr.name && decide (countDefaults cs ≤ 1) &&
-      cgCases lv hdr.name true cs
-  | .cont => decide (2 ≤ lv)
-  | .brkLoop => decide (2 ≤ lv)
-  | .forever body => decide (2 ≤ lv) && cgStmts lv body
-  | .while_ _ h body => decide (2 ≤ lv) && isTest h.name && cgStmts lv body
-  | .for_ init h inc body => decide (2 ≤ lv) && isTest h.name && cgSimple init && cgSimple inc && cgStmts lv body
-  | .macroCall _ _ => decide (5 ≤ lv)
-def cgStmts (lv : Nat) : Stmts → Bool
-  | .nil => true
-  | .cons s r => cgStmt lv s && cgStmts lv r
-def cgElifs (lv : Nat) : Elifs → Bool
-  | .nil => true
-  | .cons _ hdrs body r => hdrs.all (fun h => isTest h.name) && cgStmts lv body && cgElifs lv r
-def cgCases (lv : Nat) (sw : String) (nf : Bool) : Cases → Bool
-  | .nil => true
-  | .cons d name _ body r => (d || (isTest name && isTest (caseName sw name))) && (d || !loneExit body || nf) && cgStmts lv body &&
-      cgCases lv sw (if body.isNil then nf else endsFlowStmts body) r
-end
-
 theorem cgCases_cons {lv : Nat} {sw : String} {nf d : Bool} {name : String} {ps : List Param} {body : Stmts} {r : Cases}
     (h : cgCases lv sw nf (.cons d name ps body r) = true) :
     (d = true ∨ (isTest name = true ∧ isTest (caseName sw name) = true)) ∧ (d = true ∨ loneExit body = false ∨ nf = true) ∧
@@ -101,28 +13,6 @@ theorem cgCases_cons {lv : Nat} {sw : String} {nf d : Bool} {name : String} {ps 
   simp only [cgCases, Bool.and_eq_true, Bool.or_eq_true, Bool.not_eq_true'] at h
   exact ⟨h.1.1.1, by rcases h.1.1.2 with (a | a) | a <;> simp [a], h.1.2, h.2⟩
 
-mutual
-/-- the user labels a statement mentions (defines, jumps to, calls) -/
-def mlStmt : Stmt → List String
-  | .label n => [n]
-  | .jump n => [n]
-  | .call n => [n]
-  | .ite _ _ body elifs _ els => mlStmts body ++ mlElifs elifs ++ mlStmts els
-  | .switch _ cs => mlCases cs
-  | .forever body => mlStmts body
-  | .while_ _ _ body => mlStmts body
-  | .for_ init _ inc body => mlStmt init ++ mlStmt inc ++ mlStmts body
-  | _ => []
-def mlStmts : Stmts → List String
-  | .nil => []
-  | .cons s r => mlStmt s ++ mlStmts r
-def mlElifs : Elifs → List String
-  | .nil => []
-  | .cons _ _ body r => mlStmts body ++ mlElifs r
-def mlCases : Cases → List String
-  | .nil => []
-  | .cons _ _ _ body r => mlStmts body ++ mlCases r
-end
 
 theorem simpleOK_congr {cx : Cx} {items : List LItem} {t1 t2 : Nat → Src.B → Src.B × Nat}
     (h : SimpleOK cx items t1) (e : ∀ k b, t1 k b = t2 k b) : SimpleOK cx items t2 := by
